@@ -118,6 +118,13 @@ def contents(P, F, fn, origin, site=None, _depth=0):
                 x = x[2]
             st = x[4] if x[0] == "call" and len(x) > 4 and isinstance(x[4], tuple) and isinstance(x[4][1], int) else None
             owner = F.fn(st[0]) if st else None
+            if owner is None:
+                # `cond.then_some(value)`: the value is made before the test; the conditions are those of the place where `Some(value)` is made
+                from .prov import same_origin
+                hits = [(b0, i0) for b0, i0, st0 in fn.stmts() if st0["k"] == "assign" and st0["rv"].get("k") == "aggregate" and st0["rv"].get("variant") == "Some" and
+                        st0["rv"].get("adt") == "std::option::Option" and same_origin(P.rvalue(fn, st0["rv"], (b0, i0)), somes[0])]
+                if len(hits) == 1:
+                    owner, st = fn, (fn.key, hits[0][0])
             if owner is not None:
                 conds = [c1[1] for ee, c1 in q.dominating_conditions(P, owner, st[1]) if c1[0] == "bool" and not q.is_derived(c1)]
                 return [Contribution("single", expr=e, conds=conds, body=owner, site=st, how="option")]
